@@ -85,6 +85,15 @@ def gen_cases(tier, seed):
                                             continue
                                         cases.append(dict(kind="cg", n=n, spectrum=sp_name, U=U, b=bname, x0=x0, P=P,
                                                           asfn=asfn, max_iter=mi, tol=tol))
+    # tol > 0 and a caller that keeps stepping by hand after the tolerance was met
+    for n in (3, 5, 8):
+        for sp_name in ("three", "geom100"):
+            for U in ("householder", "dft"):
+                for P in ("none", "jacobi"):
+                    for asfn in (False, True):
+                        for tol in (1e-1, 1e-3):
+                            cases.append(dict(kind="cg", n=n, spectrum=sp_name, U=U, b="complex", x0="zero", P=P, asfn=asfn,
+                                              max_iter="n+2", tol=tol, past_tol=True))
     # the caller's x as a non-contiguous view (column of a 2-D buffer / every other element): "the solution is written
     # into the array the caller passed" must hold for any array layout
     for n in (2, 3, 5):
@@ -249,7 +258,21 @@ def run_case(case, seed):
             if not alg.done():
                 V("max-iter", "done() is still False after max_iter = %d updates" % max_iter)
             break
-        if alg.done():
+        if alg.done() and case["tol"] and not stopped_by_tol and case.get("past_tol"):
+            # the tolerance was met: judge the stop now ...
+            stopped_by_tol = True
+            xk = np.asarray(xc).ravel()
+            r_ = b - A @ xk
+            z_ = r_ if P is None else P @ r_
+            res_ = float(np.sqrt(max(0.0, np.real(np.vdot(r_, z_)))))
+            if not res_ <= case["tol"] * (1 + 1e-6) + 1e-12:
+                V("tolerance-stop", "done() by tolerance but sqrt(r^H P r) = %.3g > tol" % res_)
+                break
+            if res_ == 0.0:
+                break
+            # ... and keep stepping by hand (a caller's `for k in range(n): alg.update()`): the residual is not zero, so the
+            # recurrences are well defined and every further prefix must still be the Krylov-optimal iterate
+        elif alg.done():
             # "Once done, the object should not be run again" (Alg docstring): the prefixes of interest are those of the
             # documented driver loop; with tol = 0 this only happens once the tracked residual is exactly zero
             stopped_by_tol = bool(case["tol"])
@@ -297,7 +320,7 @@ def run_case(case, seed):
             if not fin <= 10 * tolx:
                 V("finite-termination", "not at the exact solution after %d >= d=%d updates (relative A-norm error %.3g)" % (k, d, fin))
                 break
-    if stopped_by_tol and not viol:
+    if stopped_by_tol and not viol and not case.get("past_tol"):
         xk = np.asarray(xc).ravel()
         r = b - A @ xk
         z = r if P is None else P @ r
